@@ -8,13 +8,14 @@ package proxyproto
 // ---- specification vocabulary (taken from the PROXY protocol text) ----
 
 //@ define crlfAt(s seq, i int) bool = s[i] == 13 && s[i+1] == 10
-//@ define firstCRLF(s seq, b int, p int) bool = crlfAt(s, b+p) && forall j int :: 0 <= j && j < 108 ==> (j < p ==> !crlfAt(s, b+j))
+//@ define firstCRLF(s seq, b int, p int) bool = crlfAt(s, b+p) && forall a int :: b <= a && a < b + 108 ==> (a < b + p ==> !crlfAt(s, a))
 //@ define isV2sig(s seq, b int) bool = s[b] == 13 && s[b+1] == 10 && s[b+2] == 13 && s[b+3] == 10 && s[b+4] == 0 && s[b+5] == 13 && s[b+6] == 10 && s[b+7] == 81 && s[b+8] == 85 && s[b+9] == 73 && s[b+10] == 84 && s[b+11] == 10
 //@ define v2len(s seq, b int) int = 256*s[b+14] + s[b+15]
 //@ define isV1sig(s seq, b int) bool = s[b] == 80 && s[b+1] == 82 && s[b+2] == 79 && s[b+3] == 88 && s[b+4] == 89 && s[b+5] == 32
 //@ define isTCP4(s seq, b int) bool = s[b+6] == 84 && s[b+7] == 67 && s[b+8] == 80 && s[b+9] == 52
 //@ define isTCP6(s seq, b int) bool = s[b+6] == 84 && s[b+7] == 67 && s[b+8] == 80 && s[b+9] == 54
 //@ define isUNKNOWN(s seq, b int) bool = s[b+6] == 85 && s[b+7] == 78 && s[b+8] == 75 && s[b+9] == 78 && s[b+10] == 79 && s[b+11] == 87 && s[b+12] == 78
+//@ define v1scanStart(s seq, b int) int = ite(isTCP4(s, b), 30, ite(isTCP6(s, b), 20, 12))
 //@ define v1minLen(s seq, b int, p int) bool = (isTCP4(s, b) ==> p >= 30) && (isTCP6(s, b) ==> p >= 20)
 
 //@ globalinv len(V1Identifier) == 6 && V1Identifier[0] == 80 && V1Identifier[1] == 82 && V1Identifier[2] == 79 && V1Identifier[3] == 88 && V1Identifier[4] == 89 && V1Identifier[5] == 32
@@ -24,6 +25,7 @@ package proxyproto
 
 //@ func readUntilCRLF
 //@ property C08 C12
+//@ requires r != nil
 //@ requires 1 <= idx && idx <= 107 && len(buf) >= 108
 //@ requires forall k int :: 0 <= k && k < 108 ==> (k < idx ==> buf[k] == stream(r)[pos(r) - idx + k])
 //@ modifies pos(r), buf[*]
@@ -31,13 +33,13 @@ package proxyproto
 //@ ensures err == nil ==> len(result) == pos(r) - old(pos(r)) + idx - 2 && base(result) == base(buf) && off(result) == off(buf)
 //@ ensures err == nil ==> len(result) >= idx - 1 && len(result) <= 105
 //@ ensures err == nil ==> crlfAt(stream(r), pos(r) - 2)
-//@ ensures err == nil ==> forall j int :: 0 <= j && j < 108 ==> (idx - 1 <= j && j < len(result) ==> !crlfAt(stream(r), old(pos(r)) - idx + j))
+//@ ensures err == nil ==> forall a int :: old(pos(r)) - idx <= a && a < old(pos(r)) - idx + 108 ==> (old(pos(r)) - 1 <= a && a < pos(r) - 2 ==> !crlfAt(stream(r), a))
 //@ ensures err == nil ==> forall k int :: 0 <= k && k < 108 ==> (k < len(result) ==> result[k] == stream(r)[old(pos(r)) - idx + k])
 //@ loop 0:
 //@   invariant idx0 <= idx && idx <= 107
 //@   invariant pos(r) == old(pos(r)) + idx - idx0
 //@   invariant forall k int :: 0 <= k && k < 108 ==> (k < idx ==> buf[k] == stream(r)[old(pos(r)) - idx0 + k])
-//@   invariant forall j int :: 0 <= j && j < 108 ==> (idx0 - 1 <= j && j < idx - 1 ==> !crlfAt(stream(r), old(pos(r)) - idx0 + j))
+//@   invariant forall a int :: old(pos(r)) - idx0 <= a && a < old(pos(r)) - idx0 + 108 ==> (old(pos(r)) - 1 <= a && a < pos(r) - 1 ==> !crlfAt(stream(r), a))
 //@   decreases 107 - idx
 
 //@ contract splitFn(pos int, buf []byte) (err error)
@@ -73,15 +75,26 @@ package proxyproto
 //@ modifies *, pos(r)
 //@ ensures err == nil ==> result != nil && hdrOK(result)
 //@ ensures pos(r) <= old(pos(r)) + 94
+//@ ensures err == nil ==> crlfAt(stream(r), pos(r) - 2) && pos(r) - 2 >= old(pos(r)) - 13 + v1scanStart(stream(r), old(pos(r)) - 13)
+//@ ensures err == nil ==> forall a int :: old(pos(r)) - 13 <= a && a < old(pos(r)) - 13 + 108 ==> (old(pos(r)) - 13 + v1scanStart(stream(r), old(pos(r)) - 13) <= a && a < pos(r) - 2 ==> !crlfAt(stream(r), a))
 //@ ensures forall p int :: 13 <= p && p < 106 ==> (err == nil && firstCRLF(stream(r), old(pos(r)) - 13, p) && v1minLen(stream(r), old(pos(r)) - 13, p) ==> pos(r) == old(pos(r)) - 13 + p + 2)
 
 // ---- v2 ----
 
+// v2 address block (L8.3): with the PROXY command and a TCP/UDP over IPv4/IPv6
+// family byte the header's addresses are reported, with the ports taken from
+// the header bytes; other families carry no address (the Conn then reports
+// the socket's own addresses).
+//@ define famInet(f int) bool = f == 17 || f == 18 || f == 33 || f == 34
 //@ func readV2Header
 //@ property C08 C12
 //@ requires r != nil && len(buf) >= 16
 //@ modifies *, pos(r)
-//@ ensures err == nil ==> result != nil && hdrOK(result)
+//@ ensures err == nil ==> result != nil && fresh(result)
+//@ ensures err == nil && old(buf[12]) % 16 == 1 && famInet(stream(r)[old(pos(r))]) ==> !result.IsLocal && result.Source != nil && result.Destination != nil
+//@ ensures err == nil && old(buf[12]) % 16 == 1 && stream(r)[old(pos(r))] == 17 ==> result.Source is *net.TCPAddr && result.Source.(*net.TCPAddr).Port == 256*stream(r)[old(pos(r)) + 11] + stream(r)[old(pos(r)) + 12] && result.Destination.(*net.TCPAddr).Port == 256*stream(r)[old(pos(r)) + 13] + stream(r)[old(pos(r)) + 14]
+//@ ensures err == nil && old(buf[12]) % 16 == 1 && stream(r)[old(pos(r))] == 33 ==> result.Source is *net.TCPAddr && result.Source.(*net.TCPAddr).Port == 256*stream(r)[old(pos(r)) + 35] + stream(r)[old(pos(r)) + 36] && result.Destination.(*net.TCPAddr).Port == 256*stream(r)[old(pos(r)) + 37] + stream(r)[old(pos(r)) + 38]
+//@ ensures err == nil && old(buf[12]) % 16 == 0 ==> result.IsLocal
 //@ ensures pos(r) <= old(pos(r)) + 3 + 256*stream(r)[old(pos(r)) + 1] + stream(r)[old(pos(r)) + 2]
 //@ ensures err == nil ==> pos(r) == old(pos(r)) + 3 + 256*stream(r)[old(pos(r)) + 1] + stream(r)[old(pos(r)) + 2]
 //@ ensures err == nil ==> 256*stream(r)[old(pos(r)) + 1] + stream(r)[old(pos(r)) + 2] <= 2048
@@ -90,7 +103,7 @@ package proxyproto
 //@ property C08 C12
 //@ requires r != nil
 //@ modifies *, pos(r)
-//@ ensures err == nil ==> result != nil && hdrOK(result)
+//@ ensures err == nil ==> result != nil
 //@ ensures err == nil ==> pos(r) == old(pos(r)) + 16 + v2len(stream(r), old(pos(r)))
 //@ ensures pos(r) <= old(pos(r)) + 16 + v2len(stream(r), old(pos(r)))
 
@@ -99,12 +112,76 @@ package proxyproto
 //@ property C08 C12
 //@ requires r != nil
 //@ modifies *, pos(r)
-//@ ensures err == nil ==> result != nil && hdrOK(result)
+//@ ensures err == nil ==> result != nil
+//@ ensures err == nil && isV2sig(stream(r), old(pos(r))) && stream(r)[old(pos(r)) + 12] % 16 == 1 && famInet(stream(r)[old(pos(r)) + 13]) ==> !result.IsLocal && result.Source != nil && result.Destination != nil
+//@ ensures err == nil && !isV2sig(stream(r), old(pos(r))) ==> hdrOK(result)
 //@ ensures err == nil ==> isV2sig(stream(r), old(pos(r))) || isV1sig(stream(r), old(pos(r)))
 //@ ensures isV2sig(stream(r), old(pos(r))) ==> pos(r) <= old(pos(r)) + 16 + v2len(stream(r), old(pos(r)))
 //@ ensures isV2sig(stream(r), old(pos(r))) && err == nil ==> pos(r) == old(pos(r)) + 16 + v2len(stream(r), old(pos(r)))
 //@ ensures !isV2sig(stream(r), old(pos(r))) ==> pos(r) <= old(pos(r)) + 107
 //@ ensures forall p int :: 13 <= p && p < 106 ==> (err == nil && !isV2sig(stream(r), old(pos(r))) && firstCRLF(stream(r), old(pos(r)), p) && v1minLen(stream(r), old(pos(r)), p) ==> pos(r) == old(pos(r)) + p + 2)
+
+// ---- Conn: the advertised address, never a missing one ----
+
+//@ func (*Conn).readHeaderContext
+//@ property C08 C12
+//@ requires c != nil && c.Conn != nil && ctx != nil
+//@ modifies **
+//@ ensures result == c.headerErr
+//@ ensures c.Conn == old(c.Conn)
+
+//@ func (*Conn).readHeaderContext$1
+//@ property C08 C12
+//@ requires c != nil && c.Conn != nil
+//@ modifies **
+
+//@ func (*Conn).readHeader
+//@ property C08 C12
+//@ requires c != nil && c.Conn != nil
+//@ modifies **
+//@ ensures result == c.headerErr
+//@ ensures c.Conn == old(c.Conn)
+
+//@ func (*Conn).RemoteAddr
+//@ property C08 C12
+//@ requires c != nil && c.Conn != nil
+//@ modifies **
+//@ ensures result != nil
+//@ ensures c.headerErr == nil && !c.header.IsLocal && c.header.Source != nil ==> result == c.header.Source
+//@ ensures !(c.headerErr == nil && !c.header.IsLocal && c.header.Source != nil) ==> result == sockRemote(c.Conn)
+
+//@ func (*Conn).LocalAddr
+//@ property C08 C12
+//@ requires c != nil && c.Conn != nil
+//@ modifies **
+//@ ensures result != nil
+//@ ensures c.headerErr == nil && !c.header.IsLocal && c.header.Destination != nil ==> result == c.header.Destination
+//@ ensures !(c.headerErr == nil && !c.header.IsLocal && c.header.Destination != nil) ==> result == sockLocal(c.Conn)
+
+// No application byte is delivered or accepted before the header has been consumed.
+//@ func (*Conn).Read
+//@ property C08 C12
+//@ requires c != nil && c.Conn != nil
+//@ modifies **
+//@ ensures c.headerErr != nil ==> n == 0 && err == c.headerErr
+//@ ensures 0 <= n && n <= len(b)
+
+//@ func (*Conn).Write
+//@ property C08 C12
+//@ requires c != nil && c.Conn != nil
+//@ modifies **
+//@ ensures c.headerErr != nil ==> n == 0 && err == c.headerErr
+
+//@ func (*Conn).HeaderContext
+//@ property C08
+//@ requires c != nil && c.Conn != nil && ctx != nil
+//@ modifies **
+
+//@ func (*Listener).Accept
+//@ property C08 C12
+//@ requires l != nil && l.Listener != nil
+//@ modifies *
+//@ ensures result1 == nil ==> result0 != nil
 
 //@ func (*Header).ParseTLVs
 //@ property C08 C12
